@@ -40,6 +40,14 @@ class Substituter(IdentityDagWalker):
     def _push_with_children_to_stack(self, expression: FNode, **kwargs):
         """Add children to the stack."""
 
+        # The substitution is top-down: an expression that is a key is replaced
+        # as a whole, so its children must not be visited (their substitution
+        # would be discarded, and rebuilding them can raise).
+        res = kwargs["subs"].get(expression, None)
+        if res is not None:
+            self.memoization[self._get_key(expression, **kwargs)] = res
+            return
+
         # Deal with quantifiers
         if expression.is_exists() or expression.is_forall():
             # 1. We create a new substitution in which we remove the
